@@ -16,6 +16,7 @@ RULE = ("2-4 sender threads with 1-4 stanzas each through the real coder, noise 
         "every scheduling point (lock acquire / release, encryption, stream put / get, network write); thorough: additionally ALL schedules of 2 threads x 1-2 "
         "stanzas by depth-first enumeration.  stream 'reconnect': sender threads and a network thread that loses the connection and completes a new login "
         "while senders are inside their sends; the second connection must carry frames of the second session only; the run is replayed on Model/StaleWrite. distinct = distinct (work, schedule).")
+RULE += (" stream 'sockwrite': the real socket dispatcher over loopback TCP to a slow reader, frames up to 3 MiB (thorough 8 MiB) from 1-4 threads writing under one lock: the peer reads every frame whole.")
 ASSUMPTIONS = ["CPython switches threads only between bytecodes; the scheduling points cover every operation on shared state of the data path (locks, cipher counter, "
                "stream queue, socket write) — a switch elsewhere is equivalent to one at the next point",
                "consonance's transport cipher is replaced by a stand-in that takes the next counter and writes the segment exactly where the real one does "
@@ -33,6 +34,11 @@ def cases(chk):
     ]
     for c in corpus:
         yield "random", c
+    # the socket dispatcher over a real TCP connection (loopback) to a peer that reads slowly: frames larger than what the kernel takes in one go,
+    # from one sender and from several; every byte handed to sendData arrives, each frame in one piece
+    for sizes, threads in (([1, 70000, 3 << 20, 5, 2 << 20], 1), ([3 << 20, 3 << 20, 3 << 20], 3), ([1 << 20] * 4 + [9], 2)) if chk.quick() else (
+            ([1, 70000, 3 << 20, 5, 2 << 20], 1), ([3 << 20, 3 << 20, 3 << 20], 3), ([1 << 20] * 4 + [9], 2), ([8 << 20, 100, 8 << 20], 1), ([1 << 19] * 12, 4)):
+        yield "sockwrite", {"sizes": sizes, "threads": threads}
     for _ in range(chk.scale(150, 1500)):
         nt = r.randint(2, 4)
         sid = [0]
@@ -461,8 +467,111 @@ def run_reconnect(chk, case):
     return ofails + fails
 
 
+def run_sockwrite(chk, case):
+    """the library's socket dispatcher (PROP_DISPATCHER = DISPATCHER_SOCKET) on a real loopback connection; the peer reads slowly so that the
+    kernel's send buffer is full most of the time.  Each sender thread writes its frames under one lock (what the layers above guarantee:
+    C11's other streams), so the peer must read exactly the frames, whole, in the order the lock was taken."""
+    import socket
+    import threading
+    import time
+    from yowsup.layers.network.dispatcher.dispatcher import ConnectionCallbacks
+    from yowsup.layers.network.dispatcher.dispatcher_socket import SocketConnectionDispatcher
+    try:
+        srv = socket.socket()
+        srv.bind(("127.0.0.1", 0))
+        srv.listen(1)
+    except OSError as e:
+        chk.notes.append("stream 'sockwrite' skipped: no loopback TCP in this sandbox (%s)" % e)
+        return []
+    srv.settimeout(5)
+    got = bytearray()
+    done = threading.Event()
+    total = sum(case["sizes"])
+
+    def peer():
+        try:
+            c, _a = srv.accept()
+            c.setsockopt(socket.SOL_SOCKET, socket.SO_RCVBUF, 65536)
+            c.settimeout(4)
+            while len(got) < total:
+                try:
+                    b = c.recv(65536)
+                except OSError:
+                    break
+                if not b:
+                    break
+                got.extend(b)
+                time.sleep(0.0005)        # a slow reader
+            done.set()
+            c.close()
+        except OSError:
+            done.set()
+    threading.Thread(target=peer, daemon=True).start()
+
+    class CB(ConnectionCallbacks):
+        def __init__(self):
+            self.up = threading.Event()
+
+        def onConnecting(self):
+            pass
+
+        def onConnected(self):
+            self.up.set()
+
+        def onDisconnected(self):
+            pass
+
+        def onConnectionError(self, e):
+            self.up.set()
+
+        def onRecvData(self, d):
+            pass
+    cb = CB()
+    disp = SocketConnectionDispatcher(cb)
+    threading.Thread(target=lambda: disp.connect(("127.0.0.1", srv.getsockname()[1])), daemon=True).start()
+    if not cb.up.wait(5):
+        srv.close()
+        return [oracle("C11:socket-dispatcher-does-not-connect", "the socket dispatcher did not connect to a listening loopback peer within 5 s")]
+    lock = threading.Lock()
+    order = []
+    frames = [bytes([1 + i % 250]) * n for i, n in enumerate(case["sizes"])]
+    per = [frames[t::case["threads"]] for t in range(case["threads"])]
+    errs = []
+
+    def sender(mine):
+        for f in mine:
+            with lock:
+                order.append(f)
+                try:
+                    disp.sendData(f)
+                except Exception as e:
+                    errs.append("%s: %s" % (type(e).__name__, e))
+    ths = [threading.Thread(target=sender, args=(m,), daemon=True) for m in per]
+    for t in ths:
+        t.start()
+    for t in ths:
+        t.join(20)
+    done.wait(8)
+    try:
+        disp.disconnect()
+    except Exception:
+        pass
+    srv.close()
+    chk.hit("sockwrite:threads=%d" % case["threads"], "sockwrite:largest>=%dMiB" % (max(case["sizes"]) >> 20))
+    want = b"".join(order)
+    if errs:
+        return [oracle("C11:socket-write-raises", "socket dispatcher, frames of %s bytes from %d thread(s): sendData raised %s" % (case["sizes"], case["threads"], errs[0]))]
+    if bytes(got) != want:
+        n = next((i for i in range(min(len(got), len(want))) if got[i] != want[i]), min(len(got), len(want)))
+        return [oracle("C11:socket-write-loses-bytes", "socket dispatcher over loopback TCP to a slow reader, frames of %s bytes from %d thread(s) (each write under the senders' lock): the "
+                       "peer read %d of %d bytes; the first difference is at byte %d — a frame reached the wire only in part" % (case["sizes"], case["threads"], len(got), len(want), n))]
+    return []
+
+
 def run_case(chk, stream, case):
     import random
+    if stream == "sockwrite":
+        return run_sockwrite(chk, case)
     if stream == "reconnect":
         return run_reconnect(chk, case)
     if stream == "dispatcher":
